@@ -11,6 +11,12 @@ def trie : TrieFacts :=
 def take : TakeFacts :=
   { guardsInvalid := true, guardsElem := true, returnsGenericErr := true }
 
+def validate : ValidateFacts :=
+  { rejectsTrailingSegment := true, checkerPerMapping := true, streamCheckerKeepsChunkType := true }
+
+def validateAsFound : ValidateFacts :=
+  { rejectsTrailingSegment := false, checkerPerMapping := false, streamCheckerKeepsChunkType := false }
+
 /-- the values found on the tree before the fixes (used for the negation witnesses) -/
 def trieAsFound : TrieFacts :=
   { rejectsThroughTerminal := true, descendsExisting := false, rejectsEndOnInner := false,
